@@ -67,6 +67,35 @@ def gen_history(rng, maxlen):
     return " ".join(toks)
 
 
+def valid(line):
+    """every object index refers to an object that exists at that point"""
+    toks = line.split()
+    n = int(toks[0]); i = 1
+    try:
+        while i < len(toks):
+            t = toks[i]
+            if t == "S":
+                k = int(toks[i + 2])
+                idx = [int(toks[i + 1])] + [int(toks[i + 4 + 2 * j]) for j in range(k)]
+                i += 3 + 2 * k
+            elif t == "G":
+                idx = [int(toks[i + 1])]; i += 3
+            elif t == "W":
+                idx = [int(toks[i + 1]), int(toks[i + 3])]; i += 4
+            elif t in ("I", "D", "O"):
+                idx = [int(toks[i + 1])]; i += 2
+            else:
+                idx = []
+                if t == "A":
+                    n += 1
+                i += 1
+            if any(x < 0 or x >= n for x in idx):
+                return False
+    except (ValueError, IndexError):
+        return False
+    return True
+
+
 def shrink(line, differs):
     toks = line.split()
     ng, rest = toks[0], toks[1:]
@@ -78,6 +107,8 @@ def shrink(line, differs):
             k = int(rest[i + 2]); n = 3 + 2 * k
         elif t == "G":
             n = 3
+        elif t == "W":
+            n = 4
         elif t in ("I", "D", "O"):
             n = 2
         else:
@@ -89,7 +120,7 @@ def shrink(line, differs):
         for k in range(len(ops)):
             cand = ops[:k] + ops[k + 1:]
             l = " ".join([ng] + [x for o in cand for x in o])
-            if differs(l):
+            if valid(l) and differs(l):
                 ops = cand; changed = True
                 break
     return " ".join([ng] + [x for o in ops for x in o])
